@@ -11,7 +11,8 @@ from sx import Sym
 RULE = ("four block kinds x seeded contents (0..6 items; duplicate labels, empty label, labels differing only in case or blanks) x "
         "keys: every integer in -n-2..n+1, True/False, every present label and absent ones, item objects, None, 1.5, b'x', "
         "numpy integers; observed: identity of the returned item / exception class, membership, len, iteration, and the block's "
-        "encoding before and after; non-trivial = block with a duplicate label or >=2 items; distinct by (kind, labels)")
+        "encoding before and after; then up to three in-place edits through public attributes (an item relabelled, possibly to a "
+        "label another item carries; an item deleted; the item list reversed) each followed by the same questions; non-trivial = block with a duplicate label or >=2 items; distinct by (kind, labels)")
 ASSUMPTIONS = ["labels are compared as exact strings; item identity = python object identity"]
 LABELS = ["", "a", "A", " a", "a ", "c7", "é", "b"]
 
@@ -43,6 +44,83 @@ def mk(kind, labels, rng):
     return b
 
 
+def live_list(kind, blk):
+    """the block's own item list when the public attribute hands it out (in-place edits by the caller are then possible)"""
+    attr = {"data3d": "tracks", "force3d": "tracks", "events": "events"}.get(kind)
+    return getattr(blk, attr, None) if attr else None
+
+
+def edit(kind, blk, labels, rng):
+    """one in-place edit through public attributes; returns (new label list, description) or None"""
+    items = list(iter(blk))
+    n = len(items)
+    if n == 0:
+        return None
+    what = rng.choice(["relabel-to-existing", "relabel-to-existing", "relabel-new", "delete", "reverse"])
+    if what.startswith("relabel"):
+        i = rng.randrange(n)
+        new = rng.choice(labels) if what == "relabel-to-existing" else rng.choice(LABELS)
+        items[i].label = new
+        return labels[:i] + [new] + labels[i + 1:], f"item {i} relabelled {new!r}"
+    lst = live_list(kind, blk)
+    if what == "delete":
+        i = rng.randrange(n)
+        if kind == "emg":
+            blk.removeSignal(labels[i])
+            k = labels.index(labels[i])
+            return labels[:k] + labels[k + 1:], f"removeSignal({labels[i]!r})"
+        if isinstance(lst, list) and [id(o) for o in lst] == [id(o) for o in items]:
+            del lst[i]
+            if [id(o) for o in iter(blk)] == [id(o) for o in items[:i] + items[i + 1:]]:
+                return labels[:i] + labels[i + 1:], f"del items[{i}]"
+        return None
+    if isinstance(lst, list) and [id(o) for o in lst] == [id(o) for o in items]:
+        lst.reverse()
+        if [id(o) for o in iter(blk)] == [id(o) for o in reversed(items)]:
+            return labels[::-1], "items reversed in place"
+    return None
+
+
+def observe(blk, labels):
+    enc0 = A.encode(blk)
+    items = list(iter(blk))
+    pos = {id(o): i for i, o in enumerate(items)}
+    n = len(labels)
+    keys = [("idx", i) for i in range(-n - 2, n + 2)] + [("idx", True), ("idx", False)] + [("label", l) for l in sorted(set(labels)) + ["zz", "missing"]] + \
+           [("other", None), ("other", 1.5), ("other", b"x"), ("other", np.int64(0)), ("other", ("a",))] + [("item", o) for o in items[:2]]
+    obs = []
+    for kk, kv in keys:
+        try:
+            r = blk[kv]
+            out = ("item", pos.get(id(r), -1))
+        except Exception as e:
+            out = (type(e).__name__,)
+        cont = None
+        if kk == "label":
+            try:
+                cont = kv in blk
+            except Exception as e:
+                cont = type(e).__name__
+        obs.append((kk, kv, out, cont))
+    try:
+        ln = len(blk)
+    except Exception as e:
+        ln = type(e).__name__
+    unchanged = A.encode(blk) == enc0 and [id(o) for o in iter(blk)] == [id(o) for o in items]
+    mk_keys = []
+    for kk, kv in keys:
+        if kk == "idx":
+            mk_keys.append([Sym("idx"), kv])
+        elif kk == "label":
+            mk_keys.append([Sym("label"), LABEL_IDS[kv]])
+        else:
+            mk_keys.append(Sym("other"))
+    return dict(labels=list(labels), n_items=len(items), obs=obs, ln=ln, unchanged=unchanged), [Sym("lk.run"), [LABEL_IDS[l] for l in labels], mk_keys]
+
+
+LABEL_IDS = {l: i for i, l in enumerate(LABELS + ["zz", "missing"])}
+
+
 def run(ctx):
     rng = ctx.rng
     cases = []
@@ -52,54 +130,35 @@ def run(ctx):
         pool = rng.sample(LABELS, k=rng.choice([2, 3, len(LABELS)]))
         labels = [rng.choice(pool) for _ in range(k)]
         cases.append((kind, labels))
-    label_ids = {l: i for i, l in enumerate(LABELS + ["zz", "missing"])}
     cmds = []
-    real = []
+    rounds = []
     for kind, labels in cases:
         blk = mk(kind, labels, rng)
-        enc0 = A.encode(blk)
-        items = list(iter(blk))
-        pos = {id(o): i for i, o in enumerate(items)}
-        n = len(labels)
-        keys = [("idx", i) for i in range(-n - 2, n + 2)] + [("idx", True), ("idx", False)] + [("label", l) for l in sorted(set(labels)) + ["zz", "missing"]] + \
-               [("other", None), ("other", 1.5), ("other", b"x"), ("other", np.int64(0)), ("other", ("a",))] + [("item", o) for o in items[:2]]
-        obs = []
-        for kk, kv in keys:
-            try:
-                r = blk[kv]
-                out = ("item", pos.get(id(r), -1))
-            except Exception as e:
-                out = (type(e).__name__,)
-            cont = None
-            if kk == "label":
-                try:
-                    cont = kv in blk
-                except Exception as e:
-                    cont = type(e).__name__
-            obs.append((kk, kv, out, cont))
-        try:
-            ln = len(blk)
-        except Exception as e:
-            ln = type(e).__name__
-        real.append((blk, enc0, items, obs, ln))
-        mk_keys = []
-        for kk, kv in keys:
-            if kk == "idx":
-                mk_keys.append([Sym("idx"), kv])
-            elif kk == "label":
-                mk_keys.append([Sym("label"), label_ids[kv]])
-            else:
-                mk_keys.append(Sym("other"))
-        cmds.append([Sym("lk.run"), [label_ids[l] for l in labels], mk_keys])
+        o, cmd = observe(blk, labels)
+        rounds.append((kind, labels, [], o))
+        cmds.append(cmd)
+        # the same questions again after in-place edits (a lookup must not leave anything behind that outlives an edit)
+        cur, edits = list(labels), []
+        for _ in range(rng.choice([0, 1, 2, 3]) if len(labels) >= 2 else 0):
+            e = edit(kind, blk, cur, rng)
+            if e is None:
+                continue
+            cur, what = e
+            edits = edits + [what]
+            o, cmd = observe(blk, cur)
+            rounds.append((kind, labels, edits, o))
+            cmds.append(cmd)
     replies = common.drv_batch(cmds)
-    for (kind, labels), (blk, enc0, items, obs, ln), rep in zip(cases, real, replies):
-        ctx.case((kind, tuple(labels)), nontrivial=len(labels) >= 2, sample=dict(kind=kind, labels=labels), tags=(kind, f"items={len(labels)}", "dup" if len(set(labels)) < len(labels) else "nodup"))
-        rp = dict(kind=kind, labels=labels)
-        if ln != len(items) or len(items) != len(labels):
-            ctx.fail(f"{kind}: len() = {ln} but iteration yields {len(items)} items ({len(labels)} were added)", rp, ident=f"{kind} len != iteration")
+    for (kind, labels0, edits, o), rep in zip(rounds, replies):
+        labels, obs, ln = o["labels"], o["obs"], o["ln"]
+        ctx.case((kind, tuple(labels0), tuple(edits)), nontrivial=len(labels) >= 2, sample=dict(kind=kind, labels=labels0, edits=edits),
+                 tags=(kind, f"items={len(labels)}", "dup" if len(set(labels)) < len(labels) else "nodup", f"edits={len(edits)}"))
+        rp = dict(kind=kind, labels=labels0, edits=edits, labels_now=labels)
+        if ln != o["n_items"] or o["n_items"] != len(labels):
+            ctx.fail(f"{kind}: len() = {ln} but iteration yields {o['n_items']} items ({len(labels)} expected)", rp, ident=f"{kind} len != iteration")
             continue
         for (kk, kv, out, cont), m in zip(obs, rep):
-            where = f"{kind} labels={labels} key={kv!r}"
+            where = f"{kind} labels={labels}" + (f" (after {edits})" if edits else "") + f" key={kv!r}"
             # oracle
             if kk == "idx" and isinstance(kv, int):
                 n = len(labels)
@@ -133,7 +192,7 @@ def run(ctx):
                 ctx.diff("lk.contains", f"{where}: real {cont} model {m[-1]}", rp)
                 break
         else:
-            if A.encode(blk) != enc0 or [id(o) for o in iter(blk)] != [id(o) for o in items]:
+            if not o["unchanged"]:
                 ctx.fail(f"{kind}: the lookups changed the block", rp, ident=f"{kind} lookups mutate")
 
 
